@@ -379,14 +379,16 @@ pub fn c14_plan(tier: Tier) -> Plan {
             }),
         });
     }
+    spaces.extend(crate::lsim::c14_spaces(tier));
     Plan {
         spaces,
-        rule: "P: the real ThreadPool driven by an acceptor task under the controlled scheduler. Systematic: initial 1..3 x max 1..4 x 1..6 submissions x every pattern of 'wait for quiescence between two submissions' x 6 (quick) / 60 (thorough) seeded schedules (modes: uniform, sticky, PCT-like priorities, acceptor burst, starved worker; bounded-bypass fairness); random: histories that also open gates (connections ending) between submissions. A run is distinct by (configuration, ops, hash of the context-switch sequence) and non-trivial when the schedule has >= 4 context switches.".into(),
+        rule: "P: the real ThreadPool driven by an acceptor task under the controlled scheduler. Systematic: initial 1..3 x max 1..4 x 1..6 submissions x every pattern of 'wait for quiescence between two submissions' x 6 (quick) / 60 (thorough) seeded schedules (modes: uniform, sticky, PCT-like priorities, acceptor burst, starved worker; bounded-bypass fairness); random: histories that also open gates (connections ending) between submissions. A run is distinct by (configuration, ops, hash of the context-switch sequence) and non-trivial when the schedule has >= 4 context switches. L: the real listen loop with pools {(1,1),(1,2),(1,3),(2,2),(2,3),(1,4),(3,4),(3,2)} x 2..6 long-lived connections x four arrival patterns (all connect then all send; one by one without waiting; one by one with a quiescence wait; connections ending in between) x 8 (quick) / 150 (thorough) seeded schedules; oracle: connections in service (first server-side I/O .. worker drops it) never exceed max_worker_threads at any event, and at quiescence an unserved connection implies max connections in service.".into(),
         level: "exploration",
         real: vec![
             "varlink::server::ThreadPool::{new, execute, drop, num_busy}",
             "varlink::server::Worker (worker loop, busy accounting)",
             "shuttle's model of std::thread / mpsc / Mutex / RwLock under the cfg hook",
+            "varlink::listen accept loop and worker closure (L.pool.bursts)",
         ],
         stub: vec![
             "jobs (stand-ins for connection handlers: register, block on a gate, leave)",
